@@ -290,6 +290,14 @@ func (g *swGen) packetOf(e *swExp, prefix string, choice int) []byte {
 		udp := nb().u16(sp, dp, 8+len(data), cs).raw(data).b
 		sip, dip := g.bytes(4), g.bytes(4)
 		x.u16(0x0800).u8(0x45, 0).u16(20+len(udp), 7, 0).u8(64, 17).u16(0).raw(sip).raw(dip).raw(udp)
+		// link-layer padding behind the datagram (a short datagram in a minimum-size Ethernet frame): the packet-in
+		// payload is the whole frame, so these bytes belong to what the switch sent (where the parsed value keeps them
+		// is the library's business: only "nothing dropped" is demanded of such frames, see rtw)
+		trailer := 0
+		if g.r.Intn(3) == 0 {
+			trailer = 1 + g.r.Intn(18)
+			x.raw(make([]byte, trailer))
+		}
 		e.num(prefix+".Ethertype", 0x0800)
 		p := prefix + ".Data"
 		e.kind(p, "p.IPv4")
@@ -301,7 +309,9 @@ func (g *swGen) packetOf(e *swExp, prefix string, choice int) []byte {
 		e.num(p+".Data.PortDst", uint64(dp))
 		e.num(p+".Data.Length", uint64(8+len(data)))
 		e.num(p+".Data.Checksum", uint64(cs))
-		e.raw(p+".Data.Data", data)
+		if trailer == 0 {
+			e.raw(p+".Data.Data", data)
+		}
 	case 2: // ARP
 		op := 1 + g.r.Intn(2)
 		sha, spa, tha, tpa := g.bytes(6), g.bytes(4), g.bytes(6), g.bytes(4)
